@@ -38,7 +38,7 @@ func init() {
 		Assumptions: []string{"real clocks on all databases, data 2-3h old, retention 48h; a pair is only compared when both plans report the same until", "the handler stands in for the RPC layer (covered by C20/C10)"},
 		Cases: func(tier string) int {
 			if tier == "quick" {
-				return 8
+				return 24
 			}
 			return 120
 		},
